@@ -9,25 +9,29 @@ any depth,
   whose default flag was changed by the first diff gets another value in the second one) the new value must not carry the
   default flag (`merge_apply_dfltvalue_fails`: not reachable from validated data); or
 * both are container / list-instance nodes with the operations (`meetOps`) `none` + `none` (the instance exists in all three
-  trees), `none` + `delete` (changed inside by the first diff, deleted as a whole by the second) or `create` + `delete` (created
-  by the first diff, deleted again by the second: nothing is left), the key copies of the target node belong to schema nodes
-  before the children of the source node (schema order: true of every computed diff), and their children meet in the same
-  way — the children of a deleted subtree carry no operation of their own: it is INHERITED, and `lyd_diff_merge_delete` makes
-  the operations of the target node's children explicit first.
-Excluded (OPEN, evaluated on the implementation only): `create` + `none` — an inner node CREATED by the first diff and changed
-below its root by the second one (the children of the TARGET node inherit `create`) — and `delete` + `create` of an inner node
-("delete-then-recreate", the cell of finding F18 when the descendants differ).
+  trees), `none` + `delete` (changed inside by the first diff, deleted as a whole by the second), `create` + `delete` (created
+  by the first diff, deleted again by the second: nothing is left) or `create` + `none` (created by the first diff, changed
+  inside by the second), the key copies of the target node belong to schema nodes before the children of the source node
+  (schema order: true of every computed diff), and their children meet in the same way — the children of a created / deleted
+  subtree carry no operation of their own: it is INHERITED (`lyd_diff_merge_delete` makes the operations of the target node's
+  children explicit first; the copies inside a created subtree keep inheriting `create`).
+Excluded (evaluated on the implementation only): `delete` + `create` of an inner node — "delete-then-recreate", the cell of
+finding F18 when the descendants differ; the four other cells of the table for inner nodes are rejected by the C and cannot be
+reached by two exact diffs (`merge_rejected_unreachable`).
 Core Lean only (the driver evaluates the predicate for every generated triple).
 -/
 namespace LyModel.Diff
 open LyModel LyModel.Tree
 
 /-- the operations of two inner nodes that may meet: `none` + `none` (the instance is in all three trees), `none` + `delete` (changed
-inside by the first diff, deleted by the second), `create` + `delete` (created by the first diff, deleted by the second) -/
+inside by the first diff, deleted by the second), `create` + `delete` (created by the first diff, deleted by the second),
+`create` + `none` (created by the first diff, changed inside by the second) — every accepted cell of the table for inner nodes
+except `delete` + `create` -/
 def meetOps : Option Op → Option Op → Bool
   | some .none, some .none => true
   | some .none, some .delete => true
   | some .create, some .delete => true
+  | some .create, some .none => true
   | _, _ => false
 
 mutual
